@@ -1,10 +1,11 @@
 /* streams dense / solve / pop.
  *  N <r> <c> <op> ...      dense matrix op sequence (ops comma separated):
  *     s,i,j,v  g,i,j  f,i,j  c   y,dr,dc,J (copy into (r+dr)x(c+dc) pre-filled with junk J = i.j:i.j:..)   R,ROWS,J  C,COLS,J
- *     x,from,to   w,i   W,j   e,i
+ *     x,from,to   w,i   W,j   e,i   I,i,nb (row_weight_ignore_first: 9999 stands for UINT32(-1))
  *     answer: per op  <result>=<rows as hex words w.w.w;...>
  *  L <p> <q> <Lbytes> <rows: 0/1 strings separated by ;> <rhs: hex or N, separated by ;>
  *     answer: S<status> then the q solution symbols (hex, ';' separated) when status is 0
+ *  A <size in bits> <w32> ...   of_hweight_array on the given words
  *  H <w32> ...             popcount helpers on 32-bit words: answer per word  hweight32,hweight32_table,hweight32_naive,hweight8_table(low byte),popcount_3(w | w<<32 ^ w<<13)
  */
 #include <stdio.h>
@@ -52,6 +53,7 @@ int main(void)
 				case 'x': of_mod2dense_xor_rows(cur, atoi(a[1]), atoi(a[2])); break;
 				case 'w': res = of_mod2dense_row_weight(cur, atoi(a[1])); break;
 				case 'W': res = of_mod2dense_col_weight(cur, atoi(a[1])); break;
+				case 'I': { UINT32 w = of_mod2dense_row_weight_ignore_first(cur, atoi(a[1]), atoi(a[2])); res = (w == (UINT32)-1) ? 9999 : (long)w; break; }
 				case 'e': res = of_mod2dense_row_is_empty(cur, atoi(a[1])) ? 1 : 0; break;
 				default: res = -1;
 				}
@@ -78,6 +80,11 @@ int main(void)
 			for (i = 0; i < p; i++) free(ct[i]);
 			for (i = 0; i < q; i++) free(var[i]);
 			free(ct); free(var); free(cb->tmp_tab_symbols); free(cb); of_mod2dense_free(m);
+		} else if (!strcmp(tok, "A")) {
+			INT32 size = atoi(strtok_r(NULL, " \n", &save)); int n = 0; UINT32 *arr = malloc(sizeof(UINT32));   /* exact-size block: ASan sees any over-read */
+			while ((tok = strtok_r(NULL, " \n", &save))) { arr = realloc(arr, (n + 1) * sizeof(UINT32)); arr[n++] = strtoul(tok, NULL, 10); }
+			{ UINT32 *ex = malloc(n ? n * sizeof(UINT32) : 1); memcpy(ex, arr, n * sizeof(UINT32)); fprintf(out, "R %u\n", of_hweight_array(ex, size)); free(ex); }
+			free(arr);
 		} else if (!strcmp(tok, "H")) {
 			fprintf(out, "R");
 			while ((tok = strtok_r(NULL, " \n", &save))) {
